@@ -8,13 +8,69 @@ TB = ("Trusted base: Lean 4.33 kernel; axioms propext/Classical.choice/Quot.soun
       "the translator /verif/extract (Tie A) and the correspondence harness (Tie B) as stated in DESIGN.md §8; "
       "rustc codegen, core/alloc, allocator, OS and hardware are modelled, not verified.")
 
+HIST_NOTE = TB + (" The sequential model M1/M3 (lean/TriompheModel/Model/{Heap,Handles,Ops}.lean) is hand-written, mirroring the Rust function by function, "
+                  "and is tied to the code by the history correspondence (same op lines on the Lean driver and on the real crate; outputs compared; "
+                  "property monitors evaluated on the implementation's own trace). Payload universe of the correspondence: the harness's identity-tracked types.")
+SCHED_NOTE = " Schedule half: assumed, not derived: Consistent (RC11/C++20 fragment for a location written only by RMWs), CoRW, ViaBorn, Protocol (safe-Rust ownership discipline)."
+
+
+def hist(technique, text, ref, extra=""):
+    return dict(technique=technique, text=text, design_ref=ref, note=HIST_NOTE + extra)
+
+
 CLAIMS = {
+    "C01": hist("Lean 4 proof: ownership invariant of the handle machine preserved by every op (induction over histories) + differential correspondence with the real crate",
+                "Theorems over the executable model M1 of all handle kinds and conversions: the invariant Inv (count word = number of owning handle values of all kinds; dead and abandoned blocks unowned; a live block has an owner) for every finite history, from which 'alive iff owned', 'destroyed at the last release' follow. The model is validated against the real library on ~55k operations per run (systematic tour of every op x handle type x co-owner kinds + seeded random histories) and the property itself is monitored on the implementation's traces (allocator and destructor events, poisoned quarantine).",
+                "DESIGN.md §2 M1, §6 C01"),
     "C02": dict(
         technique="Lean 4 proof over an axiomatic RC11-fragment model of the count word, instantiated at atomic orderings re-extracted from source (translator); Miri litmus runs as failing-input search",
         text="For every consistent execution (any number of threads, any rf/mo choice coherence allows) following the ownership protocol, the theorems C02_destroy_after_all / C02_destroy_unique / C02_nothing_after_destroy hold at the decrement ordering, fence and drop_inner statement order that the translator reads from /repo/src on this run; each obligation on those generated facts is a `decide` that stops compiling when the source changes unsafely. Proof is the right level because the property quantifies over all schedules and all legal load outcomes, which no execution on this machine can enumerate.",
         design_ref="DESIGN.md §2 M4, §6 C02",
-        note=TB + " Assumed, not derived: Consistent (RC11/C++20 fragment for a location written only by RMWs) and Protocol (safe-Rust ownership discipline).",
-    ),
+        note=TB + SCHED_NOTE),
+    "C03": hist("Lean 4 proof: gate ops grant iff count word = 1 and leave the state unchanged on decline (M1) + weak-memory theorem unique_verdict_exclusive at gate facts re-extracted from source; correspondence + Miri search",
+                "History half: per-gate theorems over M1 (get_mut, get_unique, is_unique, try_unique/TryFrom, try_unwrap, deprecated write/as_mut_slice, ThinArc::with_arc_mut∘get_mut) with count = owners from the invariant; tied by the history correspondence with co-owners of every kind. Schedule half: for every consistent execution, an Acquire gate load returning 1 is happens-after every access through every other handle; the obligation that every load reachable from each gate is Acquire and compared with 1 is discharged on translator output of this run.",
+                "DESIGN.md §2 M1/M4, §6 C03", SCHED_NOTE),
+    "C04": hist("Lean 4 proof: count word = owners in every reachable state incl. inside callbacks (invariant), per-op owner deltas; differential correspondence reading the count through every accessor after every op",
+                "Theorems over M1: each clone-style op adds exactly one owner of that block, each release removes one, conversions/borrows/gates are neutral, and the count word equals the number of owning handle values (Inv) after every op of every history. The correspondence prints the count through every accessor of every slot after every op (and inside callback scripts) for the real library and compares with the model; the monitor recomputes owners from the implementation's own slot table.",
+                "DESIGN.md §2 M1, §6 C04"),
+    "C07": hist("Lean 4 proof: every iterator script (any lie, panic at any call) ends built-initialised or panicked with at most one abandoned/freed block and no double drop; Clone/callback panics leave the state as modelled; invariant preserved; correspondence with panic injection at every call",
+                "Theorems over M3/M1 quantify over all scripts (reported lengths and hints changing between calls, panic position) and all callback scripts; the correspondence injects a panic at every k-th call and every (reported, actual) pair with difference <= 2 on the real library, with identity-tracked payloads and a tracking allocator detecting double drops, uninitialised reads and leaks.",
+                "DESIGN.md §2 M3, §6 C07"),
+    "C08": hist("Lean 4 proof: make_mut on sole owner = identity, on shared = one Clone + fresh block + one decrement (M1); schedule half via the Acquire gate theorem; correspondence + Miri search",
+                "Per-op theorems for Arc::make_mut / make_unique / OffsetArc::make_mut in any memory; with the invariant, sole owner = owners 1. The correspondence checks allocation identity, clone events and that other handles keep observing the old value, for co-owners of every kind.",
+                "DESIGN.md §6 C08", SCHED_NOTE),
+    "C09": hist("Lean 4 proof: try_unique/try_unwrap/into_inner move out iff count word = 1 without destructor and with one dealloc, else same handle (M1); weak-memory theorems consume_unique / consume_excludes_destroy; correspondence + Miri search",
+                "History half: per-op theorems in any memory. Schedule half: for every consistent execution at most one thread's unwrapping gate succeeds, and then no destruction exists (WM/Consume.lean), at the gate facts of this run.",
+                "DESIGN.md §6 C09", SCHED_NOTE),
+    "C10": hist("Lean 4 proof: thin<->fat round trips are identities on the word, same view, mismatch refused and released (M1); differential correspondence over every (recorded, true) length pair and with_arc_mut scripts",
+                "Theorems over M1 for every memory and handle: thin->fat->thin and fat->thin->fat are identities (the latter iff the recorded length is right, which into_thin asserts), same header/elements/addresses, a mismatch panics and releases exactly the argument; with_arc_mut replace/panic scripts are covered by the invariant and the correspondence.",
+                "DESIGN.md §6 C10"),
+    "C12": hist("Lean 4 proof: union constructors/borrow/clone/drop keep variant and block and act as the variant's Arc (M1) + bit-0 arithmetic over the layout model; correspondence over histories and shape pairs",
+                "History-level theorems for every memory and handle; arithmetic half in Props/C12Arith.lean (layout slice).",
+                "DESIGN.md §6 C12"),
+    "C13": dict(
+        technique="Lean 4 decision procedure (model of rustc auto-trait resolution and signature-level outlives) over impl/signature tables re-extracted from source by a translator; rustc probe programs as the implementation-side correspondence",
+        text="For every handle kind and every class assignment of its type parameters the model's Send/Sync verdict equals 'all payloads Send+Sync' (UniqueArc: Send iff Send, Sync iff Sync), proved by decide over the tables regenerated from /repo/src on this run, with a general lemma that the class abstraction is complete for the extracted bound language; every borrow-returning signature is region-bounded and every callback bound higher-ranked. ~550 probe programs compiled against the current crate must be accepted/rejected as the property demands and as the model predicts. The lifetime half is PARTIAL: signature-level rule + probes, not a model of the borrow checker.",
+        design_ref="DESIGN.md §2 M7, §6 C13",
+        note=TB + " rustc is the oracle for probes; two rustc rules are modelled, not verified."),
+    "C14": dict(
+        technique="Lean 4 proof over a delegation model of every comparison/hash/format impl, for every payload operator table; differential correspondence on an exhaustive small domain + scripted payloads",
+        text="For EVERY PayloadOps (independent eq/ne/lt/le/gt/ge/partial_cmp/cmp/hash/debug/display functions) each handle kind's observers equal the payload's on the held values (same-allocation licence for Arc/ThinArc eq/ne only), header-slice values order as header then slice, and with lawful payloads the ten operators are mutually consistent and equal handles hash equally. 130k queries per quick run compare the real impls with the model and with the observers applied to the values directly.",
+        design_ref="DESIGN.md §2 M5, §6 C14, §7",
+        note=TB + " Two genuine defects were repaired by fix: commits (see known_findings.json)."),
+    "C15": hist("Lean 4 proof: dropping through a MaybeUninit view emits no element destructor, assume_init is a cast, afterwards one drop per element, deprecated writes on shared handles panic without mutating (M1); correspondence over every written subset",
+                "Theorems over M1 for every block, view and length; the correspondence enumerates every subset of written slots for lengths <= 3 and random ones beyond, with identity-tracked elements.",
+                "DESIGN.md §6 C15"),
+    "C16": dict(
+        technique="Lean 4 proof over BitVec 64 (and parametric width) of the clone guard built from constants/operator/abort implementation re-extracted from source; child-process correspondence presetting the count",
+        text="For every count word w: the clone terminates the process iff w > isize::MAX, else returns w+1 without wrap; for every sequence of clone/drop/forget the word never wraps while a handle exists; with n clones in flight it stays below 2^bits. Obligations on the generated guard facts (operator, constant, abort in std and no_std not catchable, every clone path funnels into Arc::clone) are decide on translator output of this run. 287 child processes (12 clone entry points x start counts x std/no_std) are compared with the model.",
+        design_ref="DESIGN.md §2 M6, §6 C16",
+        note=TB),
+    "C17": dict(
+        technique="Lean 4 proof that the Arc/UniqueArc serde impls are the payload's (delegation model, any payload, any serializer state, any heap) + impl-form facts from the translator; recording serializer/deserializer correspondence with failure injection",
+        text="For every payload, serializer state and heap: serialising drives exactly the payload's calls (errors included); deserialising yields a new block with count 1 or passes the error through with the heap unchanged. The correspondence compares call logs, results, allocations and counts for a payload family with failure injected at each k-th callback.",
+        design_ref="DESIGN.md §2 M8, §6 C17",
+        note=TB),
 }
 
 NOT_YET = "not yet claimed in this commit: machinery for this property is under construction (DESIGN.md §10 order of work); it will be claimed, not abandoned"
